@@ -1,4 +1,4 @@
-CONSTANTS MaxRuns = 6  MaxRun = 4
+CONSTANTS MaxRuns = 6  MaxRun = 3
 INIT Init
 NEXT Next
 INVARIANT Agree
